@@ -27,7 +27,7 @@ def strip_spec(line):
     return a[: a.find("//")] if "//" in a else a
 
 
-@contract(T + "_strip_comments", props=["C03"], types=dict(line=Str), returns=Str)
+@contract(T + "_strip_comments", props=["C03", "C13"], types=dict(line=Str), returns=Str)
 class StripComments:
     def value(line):
         return strip_spec(line)
@@ -43,7 +43,7 @@ def norm(line: Str) -> Str:
     return " ".join(strip_spec(line).split())
 
 
-@contract(T + "normalize_line", props=["C03"], types=dict(line=Str), returns=Str)
+@contract(T + "normalize_line", props=["C03", "C13"], types=dict(line=Str), returns=Str)
 class NormalizeLine:
     def reveals(line):
         return reveal(norm, line)
@@ -118,6 +118,12 @@ class Tokenize:
     def value(code):
         return tok(code.split("\n"), False)
 
+    def ensures_lines_are_physical_lines(code, result):
+        return result == tok(code.split("\n"), False)
+
+    def witness_lines_are_physical_lines():
+        return {"code": ODD_SEPARATORS}
+
     def inv0(code, lines, in_multiline_import, rest):
         return tok(code.split("\n"), False) == lines + tok(rest, in_multiline_import)
 
@@ -136,7 +142,7 @@ def windows_from(lines: SeqOf(Str), w: Int, i: Int) -> SeqOf(WinT):
     return [win(lines, w, i)] + windows_from(lines, w, i + 1)
 
 
-@contract(T + "rolling_hash", props=["C03"],
+@contract(T + "rolling_hash", props=["C03", "C13"],
           types=dict(lines=SeqOf(Str), window_size=Int, hashes=SeqOf(WinT), window=SeqOf(Str), snippet=Str, hash_val=Int,
                      start_line=Int, end_line=Int),
           returns=SeqOf(WinT))
@@ -156,6 +162,12 @@ class RollingHash:
             windows_from(lines, window_size, 0) == hashes + windows_from(lines, window_size, i)
 
 
+@lemma(props=["C03", "C13"], types=dict(a=WinT, r=SeqOf(WinT), j=Int), name="window-cons-index")
+def win_cons_index(a, r, j):
+    """Pure (sequences): indexing into [a] + r."""
+    return len([a] + r) == len(r) + 1 and ([a] + r)[0] == a and implies(1 <= j and j <= len(r), ([a] + r)[j] == r[j - 1])
+
+
 @lemma(props=["C03"], types=dict(k=Int, lines=SeqOf(Str), w=Int, j=Int), name="windows-from-indexing")
 def windows_indexing(k, lines, w, j):
     """Pure: with k = number of windows still to come (start index i = len - w + 1 - k) the list windows_from(i) has
@@ -167,6 +179,7 @@ def windows_indexing(k, lines, w, j):
     if k == 0:
         return len(windows_from(lines, w, i)) == 0
     ih(windows_indexing, k - 1, lines, w, j - 1)
+    use(win_cons_index, win(lines, w, i), windows_from(lines, w, i + 1), j)
     return len(windows_from(lines, w, i)) == k and \
         implies(0 <= j and j < k, windows_from(lines, w, i)[j] == win(lines, w, i + j))
 
@@ -196,7 +209,7 @@ def naf(line, in_multi):
     return (skip_state(norm(line), in_multi), norm(line))
 
 
-@contract(PA + "_normalize_and_filter_line", props=["C03"], types=dict(line=Str, in_multiline_import=Bool),
+@contract(PA + "_normalize_and_filter_line", props=["C03", "C13"], types=dict(line=Str, in_multiline_import=Bool),
           returns=TupleOf(Bool, Opt(Str)))
 class PyNormalizeAndFilterLine:
     def value(line, in_multiline_import):
@@ -206,7 +219,7 @@ class PyNormalizeAndFilterLine:
         return implies(result[1] is not None, result[1] == norm(line) and len(result[1]) > 0)
 
 
-@contract(TA + "_normalize_and_filter_line", props=["C03"], types=dict(line=Str, in_multiline_import=Bool),
+@contract(TA + "_normalize_and_filter_line", props=["C03", "C13"], types=dict(line=Str, in_multiline_import=Bool),
           returns=TupleOf(Bool, Opt(Str)))
 class TsNormalizeAndFilterLine:
     def value(line, in_multiline_import):
@@ -228,7 +241,17 @@ def track(pairs: SeqOf(NumLineT), in_multi: Bool) -> SeqOf(NumLineT):
     return [(pairs[0][0], norm(pairs[0][1]))] + track(pairs[1:], skip_state(norm(pairs[0][1]), in_multi))
 
 
-@contract(PA + "_tokenize_with_line_numbers", props=["C03"],
+# Characters that str.splitlines() (and some editors' "smart" splitting) treat as line boundaries but that are NOT line
+# terminators of the file: the original line numbers of the property are those of the "\n"-separated physical lines
+# (the parser, the block filters and every named location count lines that way).
+ODD_SEPARATORS = "x = 1\x0c\ny = 2  # page\x0b break\x1c\x1d\x1e\nz = 3  # nel\x85 ls\u2028 ps\u2029 end\r\nw = x + y\n\nv = z\n"
+
+
+def _tracking_witness(skip_name):
+    return {"self": {}, "content": ODD_SEPARATORS, skip_name: [5]}
+
+
+@contract(PA + "_tokenize_with_line_numbers", props=["C03", "C13"],
           types=dict(content=Str, docstring_lines=SeqOf(Int), lines_with_numbers=SeqOf(NumLineT), in_multiline_import=Bool,
                      non_docstring_lines=SeqOf(NumLineT), line_num=Int, line=Str, normalized=Opt(Str)),
           returns=SeqOf(NumLineT))
@@ -237,11 +260,19 @@ class PyTokenizeWithLineNumbers:
         return track([(line_num, line) for line_num, line in enumerate(content.split("\n"), start=1)
                       if line_num not in docstring_lines], False)
 
+    def ensures_numbers_are_physical_line_numbers(content, docstring_lines, result):
+        # soundness of every reported location: a tracked statement carries the number of its "\n"-separated line
+        return result == track([(line_num, line) for line_num, line in enumerate(content.split("\n"), start=1)
+                                if line_num not in docstring_lines], False)
+
+    def witness_numbers_are_physical_line_numbers():
+        return _tracking_witness("docstring_lines")
+
     def inv0(non_docstring_lines, lines_with_numbers, in_multiline_import, rest):
         return reveal(track, rest, in_multiline_import) and track(non_docstring_lines, False) == lines_with_numbers + track(rest, in_multiline_import)
 
 
-@contract(TA + "_tokenize_with_line_numbers", props=["C03"],
+@contract(TA + "_tokenize_with_line_numbers", props=["C03", "C13"],
           types=dict(content=Str, jsdoc_lines=SeqOf(Int), lines_with_numbers=SeqOf(NumLineT), in_multiline_import=Bool,
                      non_jsdoc_lines=SeqOf(NumLineT), line_num=Int, line=Str, normalized=Opt(Str)),
           returns=SeqOf(NumLineT))
@@ -249,6 +280,13 @@ class TsTokenizeWithLineNumbers:
     def value(content, jsdoc_lines):
         return track([(line_num, line) for line_num, line in enumerate(content.split("\n"), start=1)
                       if line_num not in jsdoc_lines], False)
+
+    def ensures_numbers_are_physical_line_numbers(content, jsdoc_lines, result):
+        return result == track([(line_num, line) for line_num, line in enumerate(content.split("\n"), start=1)
+                                if line_num not in jsdoc_lines], False)
+
+    def witness_numbers_are_physical_line_numbers():
+        return _tracking_witness("jsdoc_lines")
 
     def inv0(non_jsdoc_lines, lines_with_numbers, in_multiline_import, rest):
         return reveal(track, rest, in_multiline_import) and track(non_jsdoc_lines, False) == lines_with_numbers + track(rest, in_multiline_import)
@@ -267,7 +305,7 @@ def tracked(lines: SeqOf(Str), k: Int, skip: SeqOf(Int), in_multi: Bool) -> SeqO
     return [(k, norm(lines[0]))] + tracked(lines[1:], k + 1, skip, skip_state(norm(lines[0]), in_multi))
 
 
-@lemma(props=["C03"], types=dict(lines=SeqOf(Str), k=Int, skip=SeqOf(Int), m=Bool), name="line-tracking-fusion")
+@lemma(props=["C03", "C13"], types=dict(lines=SeqOf(Str), k=Int, skip=SeqOf(Int), m=Bool), name="line-tracking-fusion")
 def tracking_fusion(lines, k, skip, m):
     """Pure: the code's pipeline (enumerate from k, filter by the skip set, fold) is the one-pass description."""
     reveal(tracked, lines, k, skip, m)
@@ -277,31 +315,59 @@ def tracking_fusion(lines, k, skip, m):
         track([(n, x) for n, x in enumerate(lines, start=k) if n not in skip], m) == tracked(lines, k, skip, m)
 
 
-def tracked_elem_ok(lines, k, skip, m, j):
-    """Element j of tracked(..): its number is an un-skipped line of the input and its text is that line's
-    (non-empty) normalisation."""
+def tracked_elem_bounds(lines, k, skip, m, j):
+    """Element j of tracked(..): its number is an un-skipped line number of the input and its text is not empty."""
     return implies(0 <= j and j < len(tracked(lines, k, skip, m)),
                    k <= tracked(lines, k, skip, m)[j][0] and tracked(lines, k, skip, m)[j][0] < k + len(lines)
-                   and tracked(lines, k, skip, m)[j][1] == norm(lines[tracked(lines, k, skip, m)[j][0] - k])
                    and len(tracked(lines, k, skip, m)[j][1]) > 0 and tracked(lines, k, skip, m)[j][0] not in skip)
 
 
-@lemma(props=["C03"], types=dict(s=SeqOf(Str), i=Int), name="tail-index")
+def tracked_elem_text(lines, k, skip, m, j):
+    """... and its text is the normalisation of exactly that line."""
+    return implies(0 <= j and j < len(tracked(lines, k, skip, m)),
+                   tracked(lines, k, skip, m)[j][1] == norm(lines[tracked(lines, k, skip, m)[j][0] - k]))
+
+
+def tracked_elem_ok(lines, k, skip, m, j):
+    return tracked_elem_bounds(lines, k, skip, m, j) and tracked_elem_text(lines, k, skip, m, j)
+
+
+@lemma(props=["C03", "C13"], types=dict(s=SeqOf(Str), i=Int), name="tail-index")
 def tail_index(s, i):
     """Pure (sequences): element i of the tail is element i + 1."""
     return implies(0 <= i and i + 1 < len(s), s[1:][i] == s[i + 1])
 
 
-@lemma(props=["C03"], types=dict(lines=SeqOf(Str), k=Int, skip=SeqOf(Int), m=Bool, j=Int), name="tracked-lines-are-original")
+@lemma(props=["C03", "C13"], types=dict(a=NumLineT, r=SeqOf(NumLineT), j=Int), name="cons-index")
+def cons_index(a, r, j):
+    """Pure (sequences): indexing into [a] + r."""
+    return len([a] + r) == len(r) + 1 and ([a] + r)[0] == a and implies(1 <= j and j <= len(r), ([a] + r)[j] == r[j - 1])
+
+
+@lemma(props=["C03", "C13"], types=dict(lines=SeqOf(Str), k=Int, skip=SeqOf(Int), m=Bool, j=Int), name="tracked-line-numbers-in-range")
+def tracked_bounds(lines, k, skip, m, j):
+    reveal(tracked, lines, k, skip, m)
+    return (len(lines) == 0 or (ih(tracked_bounds, lines[1:], k + 1, skip, m, j)
+                                and ih(tracked_bounds, lines[1:], k + 1, skip, skip_state(norm(lines[0]), m), j)
+                                and ih(tracked_bounds, lines[1:], k + 1, skip, skip_state(norm(lines[0]), m), j - 1)
+                                and use(cons_index, (k, norm(lines[0])), tracked(lines[1:], k + 1, skip, skip_state(norm(lines[0]), m)), j))) and \
+        tracked_elem_bounds(lines, k, skip, m, j)
+
+
+@lemma(props=["C03", "C13"], types=dict(lines=SeqOf(Str), k=Int, skip=SeqOf(Int), m=Bool, j=Int), name="tracked-lines-are-original")
 def tracked_lines(lines, k, skip, m, j):
     reveal(tracked, lines, k, skip, m)
     return (len(lines) == 0 or (ih(tracked_lines, lines[1:], k + 1, skip, m, j)
                                 and ih(tracked_lines, lines[1:], k + 1, skip, skip_state(norm(lines[0]), m), j)
                                 and ih(tracked_lines, lines[1:], k + 1, skip, skip_state(norm(lines[0]), m), j - 1)
+                                and use(cons_index, (k, norm(lines[0])), tracked(lines[1:], k + 1, skip, skip_state(norm(lines[0]), m)), j)
+                                and use(tracked_bounds, lines[1:], k + 1, skip, m, j)
+                                and use(tracked_bounds, lines[1:], k + 1, skip, skip_state(norm(lines[0]), m), j)
+                                and use(tracked_bounds, lines[1:], k + 1, skip, skip_state(norm(lines[0]), m), j - 1)
                                 and use(tail_index, lines, tracked(lines[1:], k + 1, skip, m)[j][0] - (k + 1))
                                 and use(tail_index, lines, tracked(lines[1:], k + 1, skip, skip_state(norm(lines[0]), m))[j][0] - (k + 1))
                                 and use(tail_index, lines, tracked(lines[1:], k + 1, skip, skip_state(norm(lines[0]), m))[j - 1][0] - (k + 1)))) and \
-        tracked_elem_ok(lines, k, skip, m, j)
+        use(tracked_bounds, lines, k, skip, m, j) and tracked_elem_ok(lines, k, skip, m, j)
 
 
 def tracked_order_ok(lines, k, skip, m, j):
@@ -310,13 +376,15 @@ def tracked_order_ok(lines, k, skip, m, j):
                    tracked(lines, k, skip, m)[j][0] < tracked(lines, k, skip, m)[j + 1][0])
 
 
-@lemma(props=["C03"], types=dict(lines=SeqOf(Str), k=Int, skip=SeqOf(Int), m=Bool, j=Int), name="tracked-lines-keep-order")
+@lemma(props=["C03", "C13"], types=dict(lines=SeqOf(Str), k=Int, skip=SeqOf(Int), m=Bool, j=Int), name="tracked-lines-keep-order")
 def tracked_order(lines, k, skip, m, j):
     reveal(tracked, lines, k, skip, m)
     return (len(lines) == 0 or (ih(tracked_order, lines[1:], k + 1, skip, m, j)
                                 and ih(tracked_order, lines[1:], k + 1, skip, skip_state(norm(lines[0]), m), j)
                                 and ih(tracked_order, lines[1:], k + 1, skip, skip_state(norm(lines[0]), m), j - 1)
-                                and use(tracked_lines, lines[1:], k + 1, skip, skip_state(norm(lines[0]), m), 0))) and \
+                                and use(tracked_lines, lines[1:], k + 1, skip, skip_state(norm(lines[0]), m), 0)
+                                and use(cons_index, (k, norm(lines[0])), tracked(lines[1:], k + 1, skip, skip_state(norm(lines[0]), m)), j)
+                                and use(cons_index, (k, norm(lines[0])), tracked(lines[1:], k + 1, skip, skip_state(norm(lines[0]), m)), j + 1))) and \
         tracked_order_ok(lines, k, skip, m, j)
 
 
@@ -327,7 +395,7 @@ def tracking_property(content, skip, r, j):
                    and implies(j + 1 < len(r), r[j][0] < r[j + 1][0]))
 
 
-@lemma(props=["C03"], types=dict(content=Str, skip=SeqOf(Int), j=Int), name="py-line-tracking")
+@lemma(props=["C03", "C13"], types=dict(content=Str, skip=SeqOf(Int), j=Int), name="py-line-tracking")
 def py_line_tracking(content, skip, j):
     """Property: every (ln, t) emitted for a Python file has t = normalize(line ln of the file), ln is not a docstring
     line, t is not empty, and the emitted line numbers are strictly increasing."""
@@ -338,7 +406,7 @@ def py_line_tracking(content, skip, j):
     return tracking_property(content, skip, r, j)
 
 
-@lemma(props=["C03"], types=dict(content=Str, skip=SeqOf(Int), j=Int), name="ts-line-tracking")
+@lemma(props=["C03", "C13"], types=dict(content=Str, skip=SeqOf(Int), j=Int), name="ts-line-tracking")
 def ts_line_tracking(content, skip, j):
     """Same property for the TypeScript/JavaScript analyzer (skip = JSDoc comment lines)."""
     r = call(TA + "_tokenize_with_line_numbers", None, content, skip)
@@ -366,7 +434,7 @@ def twindows_from(lwn: SeqOf(NumLineT), w: Int, i: Int) -> SeqOf(WinT):
     return [twin(lwn, w, i)] + twindows_from(lwn, w, i + 1)
 
 
-@contract(PA + "_rolling_hash_with_tracking", props=["C03"],
+@contract(PA + "_rolling_hash_with_tracking", props=["C03", "C13"],
           types=dict(lines_with_numbers=SeqOf(NumLineT), window_size=Int, hashes=SeqOf(WinT), window=SeqOf(NumLineT),
                      code_lines=SeqOf(Str), snippet=Str, hash_val=Int, start_line=Int, end_line=Int),
           returns=SeqOf(WinT))
@@ -385,7 +453,7 @@ class PyRollingHashWithTracking:
             twindows_from(lines_with_numbers, window_size, 0) == hashes + twindows_from(lines_with_numbers, window_size, i)
 
 
-@contract(TA + "_rolling_hash_with_tracking", props=["C03"],
+@contract(TA + "_rolling_hash_with_tracking", props=["C03", "C13"],
           types=dict(lines_with_numbers=SeqOf(NumLineT), window_size=Int, hashes=SeqOf(WinT), window=SeqOf(NumLineT),
                      code_lines=SeqOf(Str), snippet=Str, hash_val=Int, start_line=Int, end_line=Int),
           returns=SeqOf(WinT))
@@ -404,18 +472,20 @@ class TsRollingHashWithTracking:
             twindows_from(lines_with_numbers, window_size, 0) == hashes + twindows_from(lines_with_numbers, window_size, i)
 
 
-@lemma(props=["C03"], types=dict(k=Int, lwn=SeqOf(NumLineT), w=Int, j=Int), name="tracked-windows-indexing")
+@lemma(props=["C03", "C13"], types=dict(k=Int, lwn=SeqOf(NumLineT), w=Int, j=Int), name="tracked-windows-indexing")
 def twindows_indexing(k, lwn, w, j):
     """Pure: k windows remain from start index len - w + 1 - k; the j-th of them is the window of index start + j."""
     reveal(twindows_from, lwn, w, len(lwn) - w + 1 - k)
-    return (w < 1 or k <= 0 or len(lwn) - w + 1 - k < 0 or ih(twindows_indexing, k - 1, lwn, w, j - 1)) and \
+    return (w < 1 or k <= 0 or len(lwn) - w + 1 - k < 0 or (
+        ih(twindows_indexing, k - 1, lwn, w, j - 1)
+        and use(win_cons_index, twin(lwn, w, len(lwn) - w + 1 - k), twindows_from(lwn, w, len(lwn) - w + 1 - k + 1), j))) and \
         implies(w >= 1 and k >= 0 and len(lwn) - w + 1 - k >= 0,
                 len(twindows_from(lwn, w, len(lwn) - w + 1 - k)) == k
                 and implies(0 <= j and j < k,
                             twindows_from(lwn, w, len(lwn) - w + 1 - k)[j] == twin(lwn, w, len(lwn) - w + 1 - k + j)))
 
 
-@lemma(props=["C03"], types=dict(s=SeqOf(NumLineT), i=Int, w=Int), name="slice-ends")
+@lemma(props=["C03", "C13"], types=dict(s=SeqOf(NumLineT), i=Int, w=Int), name="slice-ends")
 def slice_ends(s, i, w):
     """Pure (Python slicing): the first / last element of s[i:i+w] are s[i] / s[i+w-1] when the slice is inside s."""
     return implies(0 <= i and w >= 1 and i + w <= len(s), s[i:i + w][0] == s[i] and s[i:i + w][-1] == s[i + w - 1])
@@ -430,7 +500,7 @@ def tracked_windows_property(lwn, w, r, j):
                 and r[j][1] == lwn[j][0] and r[j][2] == lwn[j + w - 1][0])
 
 
-@lemma(props=["C03"], types=dict(lwn=SeqOf(NumLineT), w=Int, j=Int), name="py-windows-complete-with-original-lines")
+@lemma(props=["C03", "C13"], types=dict(lwn=SeqOf(NumLineT), w=Int, j=Int), name="py-windows-complete-with-original-lines")
 def py_windows_complete(lwn, w, j):
     if w < 1:
         return True
@@ -441,7 +511,7 @@ def py_windows_complete(lwn, w, j):
     return tracked_windows_property(lwn, w, r, j)
 
 
-@lemma(props=["C03"], types=dict(lwn=SeqOf(NumLineT), w=Int, j=Int), name="ts-windows-complete-with-original-lines")
+@lemma(props=["C03", "C13"], types=dict(lwn=SeqOf(NumLineT), w=Int, j=Int), name="ts-windows-complete-with-original-lines")
 def ts_windows_complete(lwn, w, j):
     if w < 1:
         return True
